@@ -199,3 +199,36 @@ package simple
 //@   ensures [SI-init] forall j uint64 :: j < 32 ==> sblk(j) == 514 + j @C17
 //@   loop 0 invariant i <= 32 && (forall j uint64 :: j < i ==> sblk(j) == 514 + j) && (forall p *Inode :: !fresh(p) ==> p.Data == old(p.Data))
 //@   loop 0 decreases 32 - i
+
+// C17 start-up: mkfs writes the inode table in one journal operation committed with wait (a
+// crash during mkfs leaves the table entirely old or entirely new); recovery (obj.MkLog) runs
+// before anything is read; a server is handed out only after a successful commit.
+//@ spec Mkfs(d)
+//@   props C17 C11
+//@   requires d.tag != 0
+//@   entryassumes [boot-disk] diskOK()
+//@   entryassumes [boot-single-threaded] forall i uint64 :: i < 32 ==> held[i]
+//@   allocates obj.Log, jrnl.Op, simple.Inode, buf.Buf, marshal.Dec, marshal.Enc, cell:uint64, []uint8
+//@   modifies jblk, jcommits, lastst, dsk, recovered, dpending
+//@   ensures [K1-one-commit] jcommits == old(jcommits) + 1 @C17
+//@   ensures [K1-durable] result != nil ==> lastst == 1 && recovered @C17
+//@   ensures [SI-init] result != nil ==> (forall j uint64 :: j < 32 ==> sblk(j) == 514 + j) @C17
+
+//@ spec MakeNfs(d)
+//@   props C17 C11
+//@   requires d.tag != 0
+//@   entryassumes [boot-disk] diskOK()
+//@   entryassumes [boot-single-threaded] forall i uint64 :: i < 32 ==> held[i]
+//@   allocates obj.Log, jrnl.Op, simple.Inode, simple.Nfs, lockmap.LockMap, buf.Buf, marshal.Dec, marshal.Enc, cell:uint64, []uint8
+//@   modifies jblk, jcommits, lastst, dsk, recovered, dpending
+//@   ensures [K1-one-commit] jcommits == old(jcommits) + 1 @C17
+//@   ensures [K1-durable] result != nil ==> lastst == 1 && recovered && result.t != nil && result.l != nil @C17
+//@   ensures [SI-init] result != nil ==> (forall j uint64 :: j < 32 ==> sblk(j) == 514 + j) @C17
+
+//@ spec Recover(d)
+//@   props C17 C11
+//@   requires d.tag != 0
+//@   allocates obj.Log, simple.Nfs, lockmap.LockMap
+//@   modifies dsk, recovered, dpending
+//@   ensures [K2-recovered-first] result != nil && result.t != nil && result.l != nil && recovered @C17
+//@   ensures [K2-readonly] jblk == old(jblk) && jcommits == old(jcommits) @C17
